@@ -235,6 +235,7 @@ class Call2Mixin:
     elif isinstance(v, VMap):
       o = VMap(v.has, v.val, v.ksort, v.vkind, v.none, v.stamp, v.clock, v.size)
       o.guard = None
+      o.keys_seen = list(v.keys_seen)
     elif isinstance(v, VLock):
       o = VLock(v.name, v.reentrant, v.cond)
       o.held = v.held
@@ -385,7 +386,12 @@ class Call2Mixin:
       raise Unsupported('old() without a pre-state')
     saved, self.old_env = self.old_env, None
     try:
-      return self.ev(node.args[0], saved)
+      e = dict(saved)
+      e.update(getattr(self, 'bound_vars', {}))      # quantifier-bound variables stay visible
+      for kname, v in env.items():                   # so do pure values that did not exist at entry
+        if kname not in e and isinstance(v, (VInt, VBool, VReal, VOpaque, VStr)):
+          e[kname] = v
+      return self.ev(node.args[0], e)
     finally:
       self.old_env = saved
 
@@ -407,11 +413,20 @@ class Call2Mixin:
   def _quant(self, node, env, forall):
     lam = node.args[0]
     names = [a.arg for a in lam.args.args]
-    bound = [z3.Int(self.path.fresh_name(n)) for n in names]
+    kind = 'int'
+    if len(node.args) == 2 and isinstance(node.args[1], ast.Constant) and isinstance(node.args[1].value, str):
+      kind = node.args[1].value          # forall(lambda k: ..., 'obj')
+    bound = [z3.Const(self.path.fresh_name(n), sort_of(kind)) for n in names]
     e2 = {'__parent__': env}
+    bv = dict(getattr(self, 'bound_vars', {}))
     for n, b in zip(names, bound):
-      e2[n] = VInt(b)
-    body = self.truth(self.ev(lam.body, e2))
+      e2[n] = self.wrap(kind, b)
+    saved_bv = getattr(self, 'bound_vars', {})
+    self.bound_vars = dict(saved_bv, **{n: e2[n] for n in names})
+    try:
+      body = self.truth(self.ev(lam.body, e2))
+    finally:
+      self.bound_vars = saved_bv
     if len(node.args) >= 3:
       lo, hi = self.to_int(self.ev(node.args[1], env)), self.to_int(self.ev(node.args[2], env))
       rng = z3.And([z3.And(lo <= b, b < hi) for b in bound])
